@@ -417,10 +417,11 @@ class Check(object):
 
     # -- outcome
     def violation(self, replay_obj, nofail=False, name=None):
-        os.makedirs(os.path.join(VERIF, 'replays'), exist_ok=True)
+        rdir = os.environ.get('VERIF_REPLAY_DIR') or os.path.join(VERIF, 'replays')
+        os.makedirs(rdir, exist_ok=True)
         blob = json.dumps(replay_obj, sort_keys=True, default=repr)
         h = hashlib.sha1(blob.encode()).hexdigest()[:10]
-        path = os.path.join(VERIF, 'replays', '%s-%s.json' % (self.pid, name or h))
+        path = os.path.join(rdir, '%s-%s.json' % (self.pid, name or h))
         with open(path, 'w') as f:
             json.dump(replay_obj, f, indent=1, sort_keys=True, default=repr)
         self.violations.append((path, nofail))
@@ -451,8 +452,10 @@ class Check(object):
         }
         if cov['discharged'] < 1:
             cov['discharged'] = 0
-        os.makedirs(os.path.join(VERIF, 'evidence'), exist_ok=True)
-        with open(os.path.join(VERIF, 'evidence', '%s.json' % self.pid), 'w') as f:
+        # seeded-change trials (tools/eval_mutation.py) must not overwrite the evidence of the unchanged tree
+        evdir = os.environ.get('VERIF_EVIDENCE_DIR') or os.path.join(VERIF, 'evidence')
+        os.makedirs(evdir, exist_ok=True)
+        with open(os.path.join(evdir, '%s.json' % self.pid), 'w') as f:
             json.dump(ev, f, indent=1, sort_keys=True, default=repr)
         for line in self.known_printed:
             print(line)
